@@ -15,8 +15,13 @@ once, and leaves a confirmed set that is again closed under parents (so the next
 it, and ancestors are delivered no later). Also: a frame decided by the election model is always
 `frameToDecide`, and `onFrameDecided` moves `frameToDecide` to the next frame (consecutive frames,
 starting at `FirstFrame` after a seal / genesis).
-Not proved: termination of the Go loop (the model carries fuel; the statement is about runs that
-finish), and "the Atropos is a root of the frame" (checked by the `cons` stream against the
+Termination (`C02_confirm_terminates`): the Go loop has no bound and the model carries fuel; on a DAG
+given as a parents-first history (every parent has a smaller position than its child) with `n`
+events and at most `k` parents per event the loop finishes within `n·(k+1) + 1` iterations from any
+confirmed set (each event is confirmed at most once, a confirmation pushes at most `k` parents,
+every other iteration pops a confirmed event), so with that much fuel the run always finishes;
+`C02_block_total` combines this with the delivered-set theorem (total correctness).
+Not proved: "the Atropos is a root of the frame" (checked by the `cons` stream against the
 reference, which chooses among roots by construction).
 -/
 namespace C02
@@ -270,7 +275,7 @@ theorem C02_confirm_terminates (parents : Nat → List Nat) (n k fuel : Nat) (c0
     generalize n * (k + 1) = B at *
     omega
 
-theorem C02_confirm_terminates' (parents : Nat → List Nat) (n k fuel : Nat) (c0 : List Nat) (a : Nat)
+theorem C02_confirm_terminates_fuel (parents : Nat → List Nat) (n k fuel : Nat) (c0 : List Nat) (a : Nat)
     (hrank : ∀ w p, p ∈ parents w → p < w) (hk : ∀ w, w < n → (parents w).length ≤ k)
     (ha : a < n) (hfuel : (n + 1) * (k + 1) + 1 ≤ fuel) :
     ∃ res, confirmEvents parents fuel c0 a = some res := by
@@ -330,5 +335,21 @@ theorem onFrameDecided_next (env : Env) (s : OState) (frame atropos : Nat) (hf :
 /-! ### non-vacuity: a diamond 4 → {2,3} → 1 with event 1 already confirmed -/
 example : confirmEvents (fun n => if n = 4 then [2, 3] else if n = 2 ∨ n = 3 then [1] else []) 10 [1] 4
     = some ([2, 3, 4, 1], [4, 3, 2]) := by decide
+
+/-- the hypotheses of the termination theorem hold for this diamond (`n = 5`, `k = 2`) -/
+example : ∃ res, confirmEvents (fun n => if n = 4 then [2, 3] else if n = 2 ∨ n = 3 then [1] else []) 16 [1] 4 = some res := by
+  apply C02_confirm_terminates _ 5 2 16 [1] 4 _ _ (by decide) (by decide)
+  · intro w p hp
+    by_cases h4 : w = 4
+    · subst h4; simp at hp; omega
+    · by_cases h23 : w = 2 ∨ w = 3
+      · simp [h4, h23] at hp; omega
+      · simp [h4, h23] at hp
+  · intro w _
+    by_cases h4 : w = 4
+    · subst h4; simp
+    · by_cases h23 : w = 2 ∨ w = 3
+      · simp [h4, h23]
+      · simp [h4, h23]
 
 end C02
